@@ -137,7 +137,8 @@ def build(world: World, template: dict) -> dict:
 _MEMO: dict[str, dict] = {}
 
 
-def instantiate(name: str, template: dict, secrets_seed: int = 0) -> tuple[World, dict]:
+def instantiate(name: str, template: dict, secrets_seed: int = 0,
+                share_blobs: bool = False) -> tuple[World, dict]:
     """Return a started World holding a private copy of the template's durable state."""
     key = template_key(template)
     tdir = SCRATCH_ROOT / f"tmpl-{key}"
@@ -154,6 +155,13 @@ def instantiate(name: str, template: dict, secrets_seed: int = 0) -> tuple[World
     world = World(name=name, secrets_seed=secrets_seed)
     if world.root.exists():
         shutil.rmtree(world.root)
-    shutil.copytree(tdir, world.root)
+    if share_blobs:
+        # read-only workloads: private SQLite file, blob directory shared with the template by symlink
+        (world.instance / "media").mkdir(parents=True)
+        shutil.copy2(tdir / "instance" / "models.db3", world.db_file)
+        (world.instance / "media" / "uploads").mkdir()
+        (world.instance / "media" / "blobs").symlink_to(tdir / "instance" / "media" / "blobs", target_is_directory=True)
+    else:
+        shutil.copytree(tdir, world.root)
     world.start()
     return world, json.loads(json.dumps(_MEMO[key]))
